@@ -168,6 +168,52 @@ theorem no_memory_without_hash_only_lookup (cfg : Cfg) (r : Req)
   | fail o => rfl
   | nilp t => rfl
 
+/-- **query text, operation name, variables, extensions and headers of one request never leak into another**
+(Spec level): when a request is executed, the params the executor works on are the ones built from this request
+alone; the only field that may differ is the query text of a hash-only request, and then it is a registered text. -/
+theorem no_field_leaks_spec (cfg : Cfg) (look : String → Option String) (r : Req) (t : Transport) (d : D) (p : Params)
+    (h : spec cfg env look r = .executed t d p) :
+    ∃ p0, reach cfg r = .params t p0 ∧
+      p.opName = p0.opName ∧ p.vars = p0.vars ∧ p.exts = p0.exts ∧ p.hdrs = p0.hdrs ∧
+      (p.query = p0.query ∨ (p0.query = "" ∧ ∃ hash, look hash = some p.query)) := by
+  rw [spec_eq_reach] at h
+  cases hb : reach cfg r with
+  | none => rw [hb] at h; simp [ofBuilt] at h
+  | fail o => rw [hb] at h; simp [ofBuilt] at h
+  | nilp t' => rw [hb] at h; simp [ofBuilt] at h
+  | params t' p0 =>
+    rw [hb] at h
+    simp only [ofBuilt, spec.specExec] at h
+    cases hc : apqCore env look p0 with
+    | error e => rw [hc] at h; simp at h
+    | ok res =>
+      obtain ⟨p', add⟩ := res
+      rw [hc] at h
+      simp only at h
+      have own := apqCore_own env look p0 p' add hc
+      cases hp : env.parse p'.query with
+      | error e => rw [hp] at h; simp at h
+      | ok d' =>
+        rw [hp] at h
+        simp only [Outcome.executed.injEq] at h
+        obtain ⟨ht, _, hpp⟩ := h
+        subst ht; subst hpp
+        exact ⟨p0, rfl, own.1, own.2.1, own.2.2.1, own.2.2.2.1, own.2.2.2.2.2⟩
+
+/-- … and therefore in every interleaving of every history. -/
+theorem no_field_leaks (evs : List Ev) (id : Nat) (t : Transport) (d : D) (p : Params)
+    (hx : (id, Outcome.executed t d p) ∈ (runAll genCfg env State.fresh evs).2) :
+    ∃ pre r a q post p0, evs = pre ++ Ev.run id r a q :: post ∧ reach genCfg r = .params t p0 ∧
+      p.opName = p0.opName ∧ p.vars = p0.vars ∧ p.exts = p0.exts ∧ p.hdrs = p0.hdrs ∧
+      (p.query = p0.query ∨ (p0.query = "" ∧
+        ∃ hash, cacheGet (runAll genCfg env State.fresh pre).1.caches.apq a hash = some p.query)) := by
+  obtain ⟨pre, id', r, a, q, post, he, hxe⟩ := response_history_independent env evs _ hx
+  simp only [Prod.mk.injEq] at hxe
+  obtain ⟨hid, ho⟩ := hxe
+  subst hid
+  obtain ⟨p0, h1, h2⟩ := no_field_leaks_spec env genCfg _ r t d p ho.symm
+  exact ⟨pre, r, a, q, post, p0, he, h1, h2⟩
+
 end
 
 /-! ## Non-vacuity and witnesses (concrete interpretation: `sha q = "#" ++ q`, `"bad"` does not parse) -/
